@@ -65,6 +65,21 @@ xv::Scenario make_scn(const drv::Program& p) {
       it.reset();
       xv::call("it_end", pos < 16 ? 1 : 0); xv::ret(0, 0);
     }
+    else if (n == "ftrav" || n == "ftrave") {
+      // a traversal that starts at find(k) and runs to end(): a partial traversal for the oracle (every key at most once per incarnation,
+      // values belong to their keys, no completeness claim); ftrave: the element AFTER the found one is erased through the iterator
+      xv::call_blocking("it_begin"); auto it = s.find(K::mk(k)); xv::ret(0, 0);
+      long pos = 0;
+      while (it != s.end() && pos < 16) {
+        long kk = K::id((*it).first), vv = V::of_it((*it).second);
+        xv::call("it_yield", kk, vv); xv::ret(0, 0);
+        if (n == "ftrave" && pos == 1) { xv::call_blocking("it_erase", kk); s.erase(it); xv::ret(0, 0); }
+        else ++it;
+        pos++;
+      }
+      it.reset();
+      xv::call("it_end", 0); xv::ret(0, 0);
+    }
   };
   xv::Scenario sc; sc.nthreads = (int)p.threads.size(); sc.after = p.after;
   sc.setup = [=] { *m = new M(g_cap); xv::ev("cfg", "exclusive_iter"); for (auto& o : p.setup) exec(o); };
